@@ -40,13 +40,14 @@ OpsProofs == {"Withdraw", "TakeFromWorktop", "TakeAll", "ReturnToWorktop", "Depo
               "CloneProof", "DropProof", "DropAllProofs", "DropAuthZoneRegularProofs", "AzProofOfAmount", "AzProofOfAll"}
 OpsProofsNF == {"WithdrawNF", "TakeNF", "TakeAll", "ReturnToWorktop", "Deposit", "Burn", "BurnNFInAccount", "RecallNF",
                 "ProofOfNF", "BucketProofOfNF", "BucketProofOfAll", "PopFromAuthZone", "CloneProof", "DropProof",
-                "DropAllProofs", "DropAuthZoneRegularProofs", "AzProofOfNF", "AzProofOfAll"}
-OpsNF == {"WithdrawNF", "TakeAll", "Deposit", "DepositBatch", "MintNF", "MintNFWrongType", "MintRuid", "Burn",
+                "DropAllProofs", "DropAuthZoneRegularProofs", "AzProofOfNF", "AzProofOfAll", "WithdrawNFAmount", "RecallNFAmount"}
+OpsNF == {"WithdrawNF", "TakeAll", "Deposit", "DepositBatch", "MintNF", "MintNFWrongType", "MintRuid", "MintSingleRuid", "BurnNFAmountInAccount", "Burn",
           "BurnNFInAccount", "UpdateNFData"}
 OpsHist == {"Withdraw", "WithdrawNF", "TakeAll", "Deposit", "DepositBatch", "Mint", "MintNF", "Burn", "BurnInAccount",
             "BurnNFInAccount", "Recall", "ProofOfAmount", "UpdateNFData"}
 OpsAll == {"Withdraw", "WithdrawNF", "TakeFromWorktop", "TakeNF", "TakeAll", "ReturnToWorktop", "Deposit", "DepositBatch",
-           "Mint", "MintNF", "MintNFWrongType", "MintRuid", "Burn", "BurnInAccount", "BurnNFInAccount", "Recall", "RecallNF",
+           "Mint", "MintNF", "MintNFWrongType", "MintRuid", "MintSingleRuid", "WithdrawNFAmount", "BurnNFAmountInAccount", "RecallNFAmount",
+           "Burn", "BurnInAccount", "BurnNFInAccount", "Recall", "RecallNF",
            "ProofOfAmount", "ProofOfNF", "BucketProofOfAmount", "BucketProofOfNF", "BucketProofOfAll", "PopFromAuthZone",
            "PushToAuthZone", "CloneProof", "DropProof", "DropAllProofs", "DropNamedProofs", "DropAuthZoneProofs",
            "DropAuthZoneRegularProofs", "DropAuthZoneSignatureProofs", "AzProofOfAmount", "AzProofOfNF", "AzProofOfAll",
@@ -62,7 +63,7 @@ WProofs == <<"Withdraw", "Withdraw", "WithdrawNF", "WithdrawNF", "TakeFromWorkto
              "PopFromAuthZone", "PopFromAuthZone", "PushToAuthZone", "CloneProof", "CloneProof", "CloneProof", "DropProof", "DropProof", "DropProof",
              "DropNamedProofs", "DropAuthZoneRegularProofs", "Recall", "RecallNF", "BurnInAccount", "BurnNFInAccount", "Burn",
              "AzProofOfAmount", "AzProofOfAmount", "AzProofOfAmount", "AzProofOfAll", "AzProofOfNF", "AzProofOfNF">>
-WNF == <<"MintNF", "MintNF", "MintNF", "MintRuid", "MintRuid", "TakeAll", "TakeAll", "Burn", "Burn", "BurnNFInAccount", "BurnNFInAccount", "DepositBatch", "DepositBatch",
+WNF == <<"MintNF", "MintNF", "MintNF", "MintRuid", "MintRuid", "MintSingleRuid", "MintSingleRuid", "BurnNFAmountInAccount", "TakeAll", "TakeAll", "Burn", "Burn", "BurnNFInAccount", "BurnNFInAccount", "DepositBatch", "DepositBatch",
          "DepositBatch", "UpdateNFData", "UpdateNFData", "WithdrawNF", "Deposit">>
 \* ---- boundary scripts (GenLedger BSpec)
 ResFNU == [F |-> DefF, N |-> DefN, U |-> DefU]
@@ -98,7 +99,9 @@ ScA(n, items, ops, res, acc) == [name |-> n, items |-> items, ops |-> ops, res |
 Sc(n, items, ops, res) == ScA(n, items, ops, res, {"a1", "a2"})
 LeaveF == {"Withdraw", "Recall", "BurnInAccount", "ProofOfAmount"}
 BucketUse == {"Deposit", "Burn", "ReturnToWorktop"}
-NFHist == {"MintNF", "MintNFWrongType", "MintRuid", "UpdateNFData", "WithdrawNF", "BurnNFInAccount", "RecallNF", "ProofOfNF"}
+NFHist == {"MintNF", "MintNFWrongType", "MintRuid", "MintSingleRuid", "UpdateNFData", "WithdrawNF", "BurnNFInAccount", "RecallNF", "ProofOfNF",
+           "WithdrawNFAmount", "BurnNFAmountInAccount", "RecallNFAmount"}
+MSR_ == I("MintSingleRuid", "", "U", 0, {}, 0, "", 0)
 \* worktop / buckets (C09)
 ScW == {Sc("w0", <<>>, {"Withdraw", "WithdrawNF", "TakeFromWorktop", "TakeNF", "TakeAll", "DepositBatch", "Mint", "MintNF", "AssertContains", "AssertAny", "AssertNF", "PopFromAuthZone"}, {"F", "N"}),
         Sc("w1", <<W_("a1", 4)>>, {"TakeFromWorktop", "TakeAll", "AssertContains", "AssertAny", "DepositBatch", "Withdraw", "Mint"}, {"F"}),
@@ -117,7 +120,7 @@ ScL == {Sc("l0", <<>>, LeaveF \cup {"ProofOfNF", "WithdrawNF", "RecallNF", "Burn
         Sc("l6", <<PA_("a1", 2), PA_("a1", 4), Pop_, Dr_(1)>>, LeaveF, {"F"}),
         Sc("l7", <<W_("a1", 4), TA_("F"), BP_(1, 2)>>, BucketUse \cup {"BucketProofOfAmount", "BucketProofOfAll", "CloneProof", "DropProof"}, {"F"}),
         Sc("l8", <<W_("a1", 4), TA_("F"), BP_(1, 2), Rt_(1)>>, {"TakeFromWorktop", "TakeAll", "DepositBatch", "AssertContains", "Withdraw", "DropProof"}, {"F"}),
-        Sc("l9", <<PN_("a1", {1})>>, {"WithdrawNF", "RecallNF", "BurnNFInAccount", "ProofOfNF", "PopFromAuthZone"}, {"N"}),
+        Sc("l9", <<PN_("a1", {1})>>, {"WithdrawNF", "RecallNF", "BurnNFInAccount", "ProofOfNF", "PopFromAuthZone", "WithdrawNFAmount", "RecallNFAmount", "BurnNFAmountInAccount"}, {"N"}),
         Sc("l10", <<WN_("a1", "N", {1, 2}), TA_("N"), BPN_(1, {1})>>, BucketUse \cup {"BucketProofOfNF", "BucketProofOfAll", "DropProof", "CloneProof"}, {"N"}),
         Sc("l11", <<WN_("a1", "N", {1, 2}), TA_("N"), BPN_(1, {1}), Rt_(1)>>, {"TakeNF", "TakeAll", "DepositBatch", "AssertNF", "DropProof"}, {"N"})}
 \* histories: burnt ids, failed mints, failed transactions in between (C43, C04, C03)
@@ -133,6 +136,10 @@ ScH == {Sc("h1", <<MN_({3}), DB_("a1"), E_, BN_("a1", {3}), E_>>, NFHist, {"N"})
         Sc("u0", <<>>, {"UpdateNFData", "MintRuid", "BurnNFInAccount"}, {"U"}),
         Sc("u4", <<UpF_("U", 1, "d", 8), E_>>, {"UpdateNFData", "BurnNFInAccount"}, {"U"}),
         Sc("u1", <<MR_(1), DB_("a1"), E_>>, NFHist, {"U"}),
+        Sc("u5", <<MSR_, DB_("a2"), E_>>, NFHist, {"U"}),
+        Sc("u6", <<MSR_, E_>>, {"MintSingleRuid", "MintRuid", "WithdrawNF"}, {"U"}),
+        Sc("u7", <<MSR_, TA_("U"), Bu_(1), E_, MSR_, DB_("a1"), E_>>, NFHist, {"U"}),
+        Sc("u8", <<MSR_>>, {"TakeAll", "TakeNF", "DepositBatch", "AssertContains", "MintSingleRuid"}, {"U"}),
         Sc("u2", <<MR_(1), E_>>, {"MintRuid", "WithdrawNF", "MintNF"}, {"U"}),
         Sc("u3", <<MR_(2), DB_("a2"), E_, I("BurnNFInAccount", "a2", "U", 0, {2}, 0, "", 0), E_>>, NFHist, {"U"})}
 ScF == {Sc("f1", <<Mi_(2), DB_("a2"), E_>>, LeaveF \cup {"Mint"}, {"F"}),
@@ -195,11 +202,22 @@ ScZbucket == {Sc("zb-n" \o ToString(x[1]) \o "-d" \o ToString(x[2]),
                  BucketUse \cup {"BucketProofOfAmount", "BucketProofOfAll"}, {"F"})
               : x \in {2, 6} \X {0, 3, 5}}
 ScZ == ScZdrop \cup ScZnf \cup ScZcompose \cup ScZbucket
-ScC03 == ScF \cup {x \in ScW : x.name \in {"w0", "w1"}} \cup {x \in ScH : x.name \in {"h1", "h6"}}
-ScC04 == ScF \cup {x \in ScH : x.name \in {"h1", "h4", "u1", "u3"}}
+\* every mint / burn / recall entry point of the resource managers and vaults, each from a committed state and with the supply compared:
+\* fungible mint, bucket burn, vault burn (Account::burn -> package_burn), recall; non-fungible mint, mint_ruid, mint_single_ruid,
+\* bucket burn, vault burn by ids and by amount, recall by ids and by amount; empty-bucket drops (amount 0)
+EntryOps == {"Mint", "BurnInAccount", "Recall", "Withdraw", "MintNF", "MintRuid", "MintSingleRuid", "BurnNFInAccount", "BurnNFAmountInAccount",
+             "RecallNF", "RecallNFAmount", "WithdrawNFAmount", "WithdrawNF"}
+ScE == {Sc("e0", <<>>, EntryOps, {"F", "N", "U"}),
+        Sc("e1", <<Mi_(2), TA_("F")>>, BucketUse, {"F"}),
+        Sc("e2", <<MN_({3}), TA_("N")>>, BucketUse, {"N"}),
+        Sc("e3", <<MSR_, TA_("U")>>, BucketUse, {"U"}),
+        Sc("e4", <<MR_(2), TA_("U")>>, BucketUse, {"U"}),
+        Sc("e5", <<BA_("a1", 2), E_, BN_("a1", {1}), E_>>, EntryOps, {"F", "N", "U"})}
+ScC03 == ScF \cup ScE \cup {x \in ScW : x.name \in {"w0", "w1"}} \cup {x \in ScH : x.name \in {"h1", "h6", "u5", "u7"}}
+ScC04 == ScF \cup ScE \cup {x \in ScH : x.name \in {"h1", "h4", "u1", "u3", "u5", "u6", "u7"}}
 ScWX == ScW \cup ScX
 ScLX == ScL \cup ScX
-ScAll == ScW \cup ScL \cup ScH \cup ScF \cup ScX
+ScAll == ScW \cup ScL \cup ScH \cup ScF \cup ScX \cup ScE
 NoScripts == {}
 IdsNone == {}
 Ids1 == {{}, {1}, {2}, {3}, {1, 2}}
